@@ -161,6 +161,91 @@ def ob_copy_alias(typ):
     return FnOb(reals("x", ns, -BOX, BOX), run)
 
 
+ACCESSORS = {
+    "state": ["to_density_matrix", "to_density_matrix_with_sparsity", "to_var", "to_stacked_vector"],
+    "povm": ["matrices", "matrices_with_sparsity", "to_var", "to_stacked_vector"],
+    "gate": ["to_choi_matrix", "to_choi_matrix_with_dict", "to_choi_matrix_with_sparsity", "to_var", "to_stacked_vector", "to_process_matrix"],
+    "mprocess": ["to_var", "to_stacked_vector", "to_povm"],
+}
+
+
+def _val(r):
+    """flat list of the entries of an accessor's result (array, list of arrays, or an object with a stacked vector)"""
+    if hasattr(r, "to_stacked_vector"):
+        r = r.to_stacked_vector()
+    if isinstance(r, (list, tuple)):
+        out = []
+        for x in r:
+            out += _val(x)
+        return out
+    return [t for t in flat(np.asarray(r, dtype=object) if nd.has_sym(r) else np.asarray(r))]
+
+
+def _scribble(r):
+    """overwrite every writable array inside an accessor's result in place"""
+    if isinstance(r, (list, tuple)):
+        for x in r:
+            _scribble(x)
+        return
+    if isinstance(r, np.ndarray):
+        try:
+            r[...] = 7.0
+        except ValueError:
+            pass
+
+
+def ob_accessor_fresh(typ):
+    """(1) writing into an array an accessor handed out does not change what the accessor returns next (no memo shared with the caller);
+    (2) after the object's own parameter array is overwritten in place with new values y, every accessor returns what it returns on a
+    fresh object built from y (results depend on the current values only)"""
+    ns = {"state": 4, "povm": 8, "gate": 16, "mprocess": 32}[typ]
+
+    def run(I):
+        c = qenv.csys("Q1")
+        x = vec_of(I, "x", ns)
+        y = vec_of(I, "y", ns)
+        out = []
+        obj = c03.make_obj(typ, c, x.copy(), 2, False)
+        fresh_x = c03.make_obj(typ, c, x.copy(), 2, False)
+        for a in ACCESSORS[typ]:
+            if a in ("to_var", "to_stacked_vector"):
+                continue        # these may hand out the object's own storage (State.to_stacked_vector returns the internal array): a user write
+                                # into it is a write into the object, not hidden state -- only computed representations are probed here
+            r1 = getattr(obj, a)()
+            _scribble(r1)
+            out.append(Eq(f"{a}(): second call after the first result was overwritten == fresh object", np.array(_val(getattr(obj, a)()), dtype=object),
+                          np.array(_val(getattr(fresh_x, a)()), dtype=object), 1e-12))
+        out.append(Eq("the object itself is unchanged by writes into handed-out arrays", np.array(_val(obj.to_stacked_vector()), dtype=object), np.array(list(flat(x)), dtype=object), 0.0))
+        # (2) in-place update of the parameters (where the class allows it: Povm keeps read-only arrays)
+        obj2 = c03.make_obj(typ, c, x.copy(), 2, False)
+        for a in ACCESSORS[typ]:
+            getattr(obj2, a)()             # fill whatever the object may memoise
+        n = 4
+        wrote = True
+        try:
+            if typ == "state":
+                obj2._vec[...] = y
+            elif typ == "gate":
+                obj2._hs[...] = y.reshape(n, n)
+            elif typ == "mprocess":
+                for k in range(2):
+                    obj2._hss[k][...] = y[k * 16:(k + 1) * 16].reshape(n, n)
+            else:
+                for k in range(2):
+                    obj2._vecs[k][...] = y[k * n:(k + 1) * n]
+        except ValueError:
+            wrote = False
+        if wrote:
+            fresh_y = c03.make_obj(typ, c, y.copy(), 2, False)
+            for a in ACCESSORS[typ]:
+                out.append(Eq(f"{a}() after an in-place parameter update == fresh object with the new values", np.array(_val(getattr(obj2, a)()), dtype=object),
+                              np.array(_val(getattr(fresh_y, a)()), dtype=object), 1e-12))
+        else:
+            out.append(Holds("parameters are read-only (Povm)", typ == "povm"))
+        return out
+    return FnOb(reals("x", ns, -BOX, BOX) + reals("y", ns, -BOX, BOX), run, max_paths=50)
+
+
 def ob_basis_readonly():
     def run(I):
         from quara.objects import matrix_basis as mb
@@ -303,6 +388,7 @@ def obligations(tier):
             out += specs("C13.history", [{"first": first, "rest_group": core_ops, "length": 3}], ob_history, 30)
     out += specs("C13.copy_alias", [{"typ": t} for t in ("state", "povm", "gate", "mprocess")], ob_copy_alias, 1)
     out += specs("C13.basis_readonly", [{}], ob_basis_readonly, 0.5)
+    out += specs("C13.accessor_fresh", [{"typ": t} for t in ("state", "povm", "gate", "mprocess")], ob_accessor_fresh, 2)
     out += specs("C13.data_operands", [{"op": o} for o in ("replace_prob_dist", "covariance", "fisher", "linear_estimate", "se:identity", "se:inverse_sample_covariance",
                                                            "se:inverse_unbiased_covariance", "se_fast:inverse_sample_covariance", "re:identity", "re_fast:identity")], ob_data_operands, 3)
     seqs = [[("D1", "identity"), ("D2", "identity")], [("D1", "custom"), ("D2", "identity")], [("D1", "identity"), ("D1", "custom")], [("D2", "custom"), ("D1", "custom")]]
